@@ -37,7 +37,7 @@ STEP_KINDS = {'add_fp', 'add_link', 'rm_link', 'rm_file', 'add_boot', 'rm_boot',
 
 def strategy(tier):
     cfg = gen.cfg_st()
-    progs = st.one_of(gen.links(reopen_ok=True), gen.links(reopen_ok=True), gen.links(reopen_ok=False), gen.mixed(True, cfg, 5, 20), gen.biglinks(), gen.biglinks(), gen.samename(), gen.samename(), gen.bootlinks(), gen.bootlinks(), gen.twoboots(), gen.linktwins())
+    progs = st.one_of(gen.links(reopen_ok=True), gen.links(reopen_ok=True), gen.links(reopen_ok=False), gen.mixed(True, cfg, 5, 20), gen.biglinks(), gen.biglinks(), gen.samename(), gen.samename(), gen.bootlinks(), gen.bootlinks(), gen.twoboots(), gen.linktwins(), gen.udflinks())
     return st.tuples(progs.map(lambda p: dict(p, profile='links')), st.none())
 
 
